@@ -125,7 +125,9 @@ class Run:
         codes = [pay[i: i + 4] for i in range(2, len(pay), 12)]
         codes = [c for c in codes if c not in ("1FC9", "10E0")]
         tid = self.fl["third"]
-        return str(Command.put_bind(" I", tid, codes, dst_id=tid))
+        # vendor schemes cast their offer to the broadcast address (63:262142) instead of to themselves
+        dst = "63:262142" if self.sc.get("third_dst", "self") == "bcast" else tid
+        return str(Command.put_bind(" I", tid, codes, dst_id=dst))
 
     # -- one attempt ------------------------------------------------------------------------------
     def calls(self):
@@ -187,7 +189,9 @@ class Run:
             t.cancel()
         if pend:
             await asyncio.wait(pend, timeout=1)
-        await asyncio.sleep(SETTLE)
+        # how long after the end of the attempts the next round starts: by default long enough for every state
+        # timer to have fired; "retry_after" (s) makes the retry follow the failure closely instead
+        await asyncio.sleep(SETTLE if self.round != 1 else float(self.sc.get("retry_after", SETTLE)))
         await vloop.drain()
         none = {"out": "none", "tuple": ["", "", "", ""], "dur": 0, "state": ""}
         return {d: (tasks[d].result() if d in tasks and tasks[d].done() and not tasks[d].cancelled() else dict(none, out="hang" if d in tasks else "none"))
